@@ -102,8 +102,12 @@ impl<A: AcceptableMasterList, C: Clock, F: Filter, R: Rng, S: PtpInstanceStateMu
                 && self.port_identity.port_number > message.header.source_port_identity.port_number
             {
                 self.multiport_disable = Some(Duration::ZERO);
-                // a port disabled by a peer delay fault stays disabled
-                if !matches!(self.port_state, PortState::Faulty) {
+                // a port disabled by a peer delay fault stays disabled, and a
+                // port that is slave of a better master on this network stays
+                // its slave (the state decision puts it back every run
+                // anyway, so demoting it here makes it alternate between
+                // slave and passive once per announce interval)
+                if !matches!(self.port_state, PortState::Faulty | PortState::Slave(_)) {
                     self.set_forced_port_state(PortState::Passive);
                 }
             }
